@@ -2,6 +2,15 @@
 from gen import gen_bundle
 from props._semprop import simple
 
+from common import prove
+
+MODULE = 'Proofs.Props.C02'
+THEOREMS = ['Facto.get_evalArith_each', 'Facto.get_evalDecider_gate', 'Facto.get_evalNode_beach', 'Facto.get_evalNode_bfilter_copy', 'Facto.get_evalNode_bgate', 'Facto.beach_support_subset', 'Facto.bfilter_support_subset', 'Facto.rule_each_arith', 'Facto.rule_bundle_gate', 'Facto.SigMap.get_append', 'Facto.SigMap.mem_support', 'Facto.SigMap.get_map_support']
+
 
 def run(res, tier):
+    proved = prove(res, MODULE, THEOREMS)
     simple(res, tier, gen_bundle, 80, 1200, "seeded generator of stateless bundle programs (gen.BundleGen: literals, nested/merged bundles, each-arithmetic with constant and signal operands, filters with copy/constant output, gating, any/all, selection); whole anchor networks are compared")
+    if not proved:
+        res.violation({"reason": "a proof obligation of C02 no longer checks", "problems": res.proof_problems,
+                       "log": res.proof_log[-1500:], "obligation": MODULE}, failing_input=False)
